@@ -13,6 +13,11 @@ Inductive decomp :=
 | DTuckerModes (core : tensor Z) (fs : list (tensor Z)) (ms : list nat)   (* tucker_to_tensor((core, fs), modes=ms), any modes (repeated ones included) *)
 | DCpNum (x : Z) (mask : option (tensor Z))   (* a Python number handed to the cp_tensor functions (0-order tensor) *)
 | DTtNum (x : Z)                             (* ... to the tt_tensor functions *)
+| DCpG (w : option (tensor (Z * Z))) (fs : list (tensor (Z * Z)))   (* CP tensor with complex (Gaussian-integer) weights and factors *)
+| DTuckerG (core : tensor (Z * Z)) (fs : list (tensor (Z * Z))) (skip : option nat) (tr : bool)   (* complex Tucker / TT / TR / TT-matrix *)
+| DTtG (cores : list (tensor (Z * Z)))
+| DTrG (cores : list (tensor (Z * Z)))
+| DTtmG (cores : list (tensor (Z * Z)))
 | DTt (cores : list (tensor Z))
 | DTr (cores : list (tensor Z))
 | DTtm (cores : list (tensor Z))
@@ -29,6 +34,8 @@ Inductive out :=
 | OSS (s : list (list nat)) (r : nat)    (* PARAFAC2: (slice shapes, rank) *)
 | OL (l : list (tensor Z))               (* list of arrays *)
 | ONorm (q : Q)                          (* cp_norm, a float *)
+| OTG (t : tensor (Z * Z))               (* a complex array with Gaussian-integer entries *)
+| ONormC (re im : Q)                      (* cp_norm of a complex CP tensor: a complex float *)
 | OErr                                   (* the call raised *)
 | OBad.                                  (* output not representable (non-integer / non-finite entries): never agrees *)
 
@@ -40,8 +47,32 @@ Definition rsr (r : res (list nat * list nat)) : out := match r with Ok (s, k) =
 Definition sumsq (t : tensor Z) : Z := fold_left (fun acc x => (acc + x * x)%Z) (data t) 0%Z.
 Definition rnorm (r : res (tensor Z)) : out := match r with Ok t => ONorm (inject_Z (sumsq t)) | Err => OErr end.
 
+Definition rtg (r : res (tensor (Z * Z))) : out := match r with Ok t => OTG t | Err => OErr end.
 Definition run (d : decomp) (v : view) : out :=
   match d, v with
+  | DCpG w fs, VValidate => match validate_cp w fs with Ok (s, r) => OSR s [r] | Err => OErr end
+  | DCpG w fs, VTensor => rtg (cp_to_tensor GIops w fs None)
+  | DCpG w fs, VUnfolded m => rtg (cp_to_unfolded GIops w fs m)
+  | DCpG w fs, VVec => rtg (cp_to_vec GIops w fs)
+  | DTuckerG c fs _ _, VValidate => rsr (validate_tucker c fs)
+  | DTuckerG c fs skip tr, VTensor => rtg (tucker_to_tensor_conj GIops gconj c fs skip tr)
+  | DTuckerG c fs skip tr, VUnfolded m => rtg (rbind (tucker_to_tensor_conj GIops gconj c fs skip tr) (fun t => unfold (0, 0)%Z t m))
+  | DTuckerG c fs skip tr, VVec => rtg (rbind (tucker_to_tensor_conj GIops gconj c fs skip tr) tensor_to_vec)
+  | DTtG cs, VValidate => rsr (validate_tt cs)
+  | DTtG cs, VTensor => rtg (tt_to_tensor GIops cs)
+  | DTtG cs, VUnfolded m => rtg (tt_to_unfolded GIops cs m)
+  | DTtG cs, VVec => rtg (tt_to_vec GIops cs)
+  | DTrG cs, VValidate => rsr (validate_tr cs)
+  | DTrG cs, VTensor => rtg (tr_to_tensor GIops cs)
+  | DTrG cs, VUnfolded m => rtg (tr_to_unfolded GIops cs m)
+  | DTrG cs, VVec => rtg (tr_to_vec GIops cs)
+  | DTtmG cs, VValidate => rsr (validate_ttm cs)
+  | DTtmG cs, VTensor => rtg (ttm_to_tensor GIops cs)
+  | DTtmG cs, VMatrix => rtg (ttm_to_matrix GIops cs)
+  | DTtmG cs, VUnfolded m => rtg (ttm_to_unfolded GIops cs m)
+  | DTtmG cs, VVec => rtg (ttm_to_vec GIops cs)
+  (* cp_norm as it is: the weights enter un-conjugated (Model/Factorized2.v, conj_weights = false) *)
+  | DCpG w fs, VNorm => match cp_normsq_conj GIops gconj false w fs with Ok (a, b) => ONormC (inject_Z a) (inject_Z b) | Err => OErr end
   | DCp w fs _, VValidate => match validate_cp w fs with Ok (s, r) => OSR s [r] | Err => OErr end
   | DCp w fs mask, VTensor => rt (cp_to_tensor Zops w fs mask)
   | DCp w fs _, VUnfolded m => rt (cp_to_unfolded Zops w fs m)
@@ -128,6 +159,10 @@ Definition out_eqb (model obs : out) : bool :=
   | OSS s r, OSS s' r' => list_eqb nat_list_eqb s s' && Nat.eqb r r'
   | OL a, OL b => list_eqb zt_eqb a b
   | ONorm n, ONorm q => norm_close n q
+  | OTG a, OTG b => nat_list_eqb (shape a) (shape b) && list_eqb (fun x y => Z.eqb (fst x) (fst y) && Z.eqb (snd x) (snd y)) (data a) (data b)
+  (* model value n = the Gram-Hadamard number (complex); observed q = its principal square root: compare q^2 with n *)
+  | ONormC nr ni, ONormC qr qi => Qle_bool 0 qr && qclose (1 # 1000000000) (1 # 1000000000) (qr * qr - qi * qi) nr
+                                  && qclose (1 # 1000000000) (1 # 1000000000) (2 * qr * qi) ni
   | OErr, OErr => true
   | _, _ => false
   end.
@@ -156,6 +191,11 @@ Definition obj_new (d : decomp) : res obj :=
   | DTuckerModes _ _ _ => Err
   | DCpNum _ _ => Err
   | DTtNum _ => Err
+  | DCpG _ _ => Err
+  | DTuckerG _ _ _ _ => Err
+  | DTtG _ => Err
+  | DTrG _ => Err
+  | DTtmG _ => Err
   end.
 
 (* the call arguments (mask, skip_factor, transpose_factors) are those of the decomposition the history started from *)
